@@ -215,13 +215,15 @@ var withTSAndSampleService = WithPreRequest(func(w http.ResponseWriter, r *http.
 	}
 	ctx = context.WithValue(r.Context(), "splService", svc)
 
-	svc, err = Registry.GetTimeSeriesService(dsn.(string))
+	// all tables of one push go to the node chosen for its samples
+	node := svc.GetNodeName()
+	svc, err = Registry.GetTimeSeriesService(node)
 	if err != nil {
 		return err
 	}
 	ctx = context.WithValue(ctx, "tsService", svc)
 
-	svc, err = Registry.GetProfileInsertService(dsn.(string))
+	svc, err = Registry.GetProfileInsertService(node)
 	if err != nil {
 		return err
 	}
@@ -242,7 +244,7 @@ var withTracesService = WithPreRequest(func(w http.ResponseWriter, r *http.Reque
 
 	ctx := context.WithValue(r.Context(), "spanAttrsService", svc)
 
-	svc, err = Registry.GetSpansService(dsn.(string))
+	svc, err = Registry.GetSpansService(svc.GetNodeName())
 	if err != nil {
 		return err
 	}
